@@ -52,7 +52,7 @@ def bounds(tier):
 
 def term_cases(tier):
     if tier == "thorough":
-        return gen.corpus(tier, families=FAMS, depth=2, coarse=True)
+        return gen.corpus(tier, families=FAMS, depth=2, coarse=2)
     terms = gen.corpus(tier, families=FAMS, depth=2, coarse=2)
     # quick: depth 1 complete, then every second depth-1 term and every fifth depth-2 term of the (already pruned) pool, in enumeration order
     n1 = len(gen.expand(gen.all_leaves(tier), gen.all_leaves(tier), tier, FAMS))
